@@ -22,7 +22,14 @@ sender, receiver, retry timer; server: srv = (srv + subscribe) - unsubscribe per
     constructor that holds the dial options (config.New -> newDynamicSource -> initDiscoveryClient): quick = the keepalive
     parameters of the ClientConn it builds are what HasKeepalive = TRUE assumes; thorough = real gRPC server behind a TCP
     forwarder that black-holes the established connection, new streams must carry the dependency set within 90 s;
- 6. thorough: end to end through the production path (dependency stream hook -> Subscribe) against a real gRPC
+ 6. the dependency side (DepMsg / ApplyNext, constant AsyncApply: a goroutine per message must violate SetTracksDeps, InSync
+    and Converges): the real discoveryClient.StreamDependencies receive loop on a scripted api.DiscoveryServiceClient, driven
+    by mandatory strata (more additions than the queue holds while the service streams are down, then a message removing a
+    late / an early one; add-then-remove and remove-then-add of one service in consecutive messages with the sender held
+    in Send), by TLC's counterexamples of the AsyncApply variant and by simulated message behaviours of the intended
+    design; oracle: at quiescence what every live stream carries, and each client's subscribed set, equal the last
+    dependency set;
+ 7. thorough: end to end through the production path (dependency stream hook -> Subscribe) against a real gRPC
     discovery server implemented in the harness.
 """
 import concurrent.futures as cf
@@ -38,6 +45,7 @@ LEVEL = "model_checking"
 SIG_DEADLOCK = "deadlock/queue-full-holding-lock"
 SIG_BATCH = "out-of-sync/sub-unsub-same-batch"
 SIG_SILENT = "no-retry/silent-connection-loss"
+SIG_DEPORDER = "out-of-sync/dependency-messages-applied-out-of-order"
 SILENT_CONFIRM_S = 150     # "never" is only reported after this long (the verdict must not depend on machine load)
 SILENT_DEADLINE_S = 90     # generously above keepalive time + timeout (30 s + 10 s; grpc 1.23 needs up to 2*30 + 10)
 
@@ -77,7 +85,8 @@ def emit_behaviours(ctx):
         hists.append(hist)
 
     n_cex = 400 if ctx.thorough else 10
-    for cfg, kind in (("Gen_Discovery_cex_deadlock.cfg", "cex-deadlock"), ("Gen_Discovery_cex_outofsync.cfg", "cex-outofsync")):
+    q = "" if ctx.thorough else "_quick"   # quick: the same search without stream failures
+    for cfg, kind in (("Gen_Discovery_cex_deadlock%s.cfg" % q, "cex-deadlock"), ("Gen_Discovery_cex_outofsync%s.cfg" % q, "cex-outofsync")):
         r = ctx.tlc("config", "DiscoveryGen", cfg, workers=1, timeout=300)
         if r.timeout or r.error:
             raise kit.Inconclusive("counterexample emission %s failed: %s" % (cfg, r.error[:500]))
@@ -237,8 +246,28 @@ def part_model(ctx):
         cfg = "MC_Discovery_fixed_fulllive.cfg"
     r = ctx.mc("config", "Discovery", cfg, workers=6, timeout=2400, coverage=not ctx.thorough)
     if r.coverage:
-        ctx.check_vacuity(r, "Discovery", ignore=("Init", "CallUnlock"))  # CallUnlock exists in the pinned variant only
+        ctx.check_vacuity(r, "Discovery", ignore=("Init", "CallUnlock", "DepMsg", "ApplyNext"))
+        # CallUnlock exists in the pinned variant only; DepMsg / ApplyNext are exercised by MC_Discovery_depmsgs*.cfg
     return r
+
+
+def part_model_deps(ctx):
+    """dependency messages with several changes, applied in order by the receive loop (quick: safety; thorough: + liveness)"""
+    cfg = "MC_Discovery_depmsgs.cfg" if ctx.thorough else "MC_Discovery_depmsgs_quick.cfg"
+    r = ctx.mc("config", "Discovery", cfg, workers=4, timeout=1200, count=False, coverage=not ctx.thorough)
+    if r.coverage:
+        # (the quick configuration has no stream failures; the failure actions are covered by MC_Discovery_fixed_quick.cfg)
+        for a in ("DepMsg", "ApplyNext", "CallLock", "CallEnqueue", "ResubLock", "SenderSend"):
+            if not r.coverage.get(a):
+                raise kit.Inconclusive("vacuous model Discovery (dependency messages): action %s never taken" % a)
+    return r
+
+
+def part_async_converges(ctx):
+    r = ctx.tlc("config", "Discovery", "MC_Discovery_asyncapply_converges.cfg", workers=4, timeout=1200)
+    if "Temporal property Converges was violated" not in r.stdout:
+        raise kit.Inconclusive("AsyncApply must violate Converges: %s %s" % (r.violated, r.error[:300]))
+    return ["Converges"]
 
 
 def part_model_live(ctx):
@@ -265,7 +294,9 @@ def part_pinned(ctx):
         "MC_Discovery_nokeepalive.cfg": ["NoDeadlock"],
         "MC_Discovery_nokeepalive_retry.cfg": ["TEMPORAL"],
         "MC_Discovery_nokeepalive_converges.cfg": ["TEMPORAL"],
-        "MC_Discovery_windows.cfg": ["NotW1", "NotW2", "NotW3", "NotW4", "NotW5", "NotW6", "NotW7"],
+        "MC_Discovery_asyncapply.cfg": ["SetTracksDeps"],
+        "MC_Discovery_asyncapply_insync.cfg": ["InSync"],
+        "MC_Discovery_windows.cfg": ["NotW1", "NotW2", "NotW3", "NotW4", "NotW5", "NotW6", "NotW7", "NotW8"],
     }
     out = {}
     for cfg, e in exp.items():
@@ -332,6 +363,83 @@ def part_e2e(ctx):
     return kit.read_ndjson(rfile)
 
 
+def names(prefix, a, b):
+    return ["%s%02d" % (prefix, i) for i in range(a, b)]
+
+
+def mandatory_dep_strata():
+    """hand-written strata at the real capacity (16): [kind, steps]"""
+    dep = lambda added=(), removed=(): {"a": "dep", "added": list(added), "removed": list(removed)}
+    up = {"a": "nsOK"}
+    out = []
+    # more additions than the queue holds while the service streams are down, then a removal
+    out.append(("stratum/20-added-while-down-then-late-one-removed", [dep(names("s", 1, 21)), dep(removed=["s20"]), up]))
+    out.append(("stratum/20-added-while-down-then-late-and-early-removed", [dep(names("s", 1, 21)), dep(removed=["s18", "s03"]), up]))
+    out.append(("stratum/40-added-while-down-then-five-removed-then-three-added",
+                [dep(names("s", 1, 41)), dep(removed=["s40", "s33", "s17", "s16", "s01"]), dep(["t01", "t02", "s40"]), up]))
+    out.append(("stratum/17-added-while-down-refused-once-then-last-removed",
+                [dep(names("s", 1, 18)), {"a": "nsFail"}, dep(removed=["s17"]), up]))
+    # the same during an outage of established streams
+    out.append(("stratum/outage-20-added-then-late-one-removed",
+                [up, dep(["p01"]), {"a": "hold"}, {"a": "send", "S": ["p01"], "U": []}, {"a": "fail"},
+                 dep(names("s", 1, 21)), dep(removed=["s19"]), up]))
+    # consecutive messages about one service while the sender is held in Send
+    out.append(("stratum/sender-held-add-then-remove",
+                [up, dep(["p01"]), {"a": "hold"}, dep(["x"]), dep(removed=["x"]), {"a": "send", "S": ["p01"], "U": []}]))
+    out.append(("stratum/sender-held-remove-then-add",
+                [up, dep(["x"]), {"a": "hold"}, {"a": "send", "S": ["x"], "U": []}, dep(["p01"]), {"a": "hold"},
+                 dep(removed=["x"]), dep(["x"]), {"a": "send", "S": ["p01"], "U": []}]))
+    out.append(("stratum/sender-held-add-remove-add-remove",
+                [up, dep(["p01"]), {"a": "hold"}, dep(["x"]), dep(removed=["x"]), dep(["x", "y"]), dep(removed=["x"]),
+                 {"a": "send", "S": ["p01"], "U": []}]))
+    return out
+
+
+def part_deps(ctx):
+    rng = random.Random(ctx.seed + 11)
+    scripts = []
+    for kind, steps in mandatory_dep_strata():
+        scripts.append({"id": len(scripts), "kind": kind, "cap": 16, "steps": steps})
+    r = ctx.tlc("config", "DiscoveryGen", "Gen_Discovery_cex_async%s.cfg" % ("" if ctx.thorough else "_quick"), workers=1, timeout=300)
+    cex = [p for (tag, p) in r.prints if tag == "CEX"]
+    if r.timeout or r.error or not cex:
+        raise kit.Inconclusive("AsyncApply counterexample emission failed or empty: %s" % r.error[:300])
+    cex.sort(key=lambda c: len(c["hist"]))
+    ncex = 120 if ctx.thorough else 10
+    pick = cex[: ncex // 2]
+    rest = cex[ncex // 2:]
+    rng.shuffle(rest)
+    pick += rest[: ncex - len(pick)]
+    ctx.cov.setdefault("model_counterexample_states", {})["cex-asyncapply"] = len(cex)
+    seen = set()
+    for c in pick:
+        steps = project(c["hist"])
+        k = json.dumps(steps, sort_keys=True)
+        if k not in seen:
+            seen.add(k)
+            scripts.append({"id": len(scripts), "kind": "cex-asyncapply", "cap": 1, "steps": steps})
+    num = 150 if ctx.thorough else 24
+    r = ctx.tlc("config", "DiscoveryGen", "Gen_Discovery_deps.cfg", mode="sim", workers=1, sim_num=num, sim_depth=200,
+                seed=ctx.seed, deadlock=False, timeout=300)
+    behs = [p for (tag, p) in r.prints if tag == "BEH"]
+    if len(behs) < num // 2:
+        raise kit.Inconclusive("only %d simulated dependency behaviours emitted: %s" % (len(behs), r.error[:300]))
+    for b in behs:
+        steps = project(b)
+        k = json.dumps(steps, sort_keys=True)
+        if k not in seen:
+            seen.add(k)
+            scripts.append({"id": len(scripts), "kind": "sim-deps", "cap": 1, "steps": steps})
+    bfile = os.path.join(ctx.work, "depscripts.ndjson")
+    kit.write_ndjson(bfile, scripts)
+    rfile = os.path.join(ctx.work, "deps.ndjson")
+    ctx.harness(["c16-deps", "-in", bfile, "-out", rfile, "-par", str(max(48, len(scripts)))], timeout=1200)
+    results = kit.read_ndjson(rfile)
+    if len(results) != len(scripts):
+        raise kit.Inconclusive("dependency driver returned %d results for %d scripts" % (len(results), len(scripts)))
+    return scripts, results
+
+
 def part_keepalive(ctx):
     """the ClientConn built by the production constructor, observed (quick and thorough)"""
     rfile = os.path.join(ctx.work, "keepalive.ndjson")
@@ -376,8 +484,10 @@ def run(ctx):
         "grpc-go 1.23 declares a silent connection dead within 2*Time + Timeout; the keepalive parameters are read from the ClientConn by reflection",
     ]
     parts = {"model": part_model, "enqfix": part_model_enqfix, "pinned": part_pinned, "replay": part_replay, "random": part_random,
-             "keepalive": part_keepalive}
+             "keepalive": part_keepalive, "deps": part_deps}
+    parts["model_deps"] = part_model_deps
     if ctx.thorough:
+        parts["model_async_live"] = part_async_converges
         parts["model_live"] = part_model_live
         parts["e2e"] = part_e2e
         parts["blackhole"] = part_blackhole
@@ -463,6 +573,47 @@ def run(ctx):
                 judge(ctx, "end-to-end scenario %s (%s stream, real gRPC)" % (r["name"], scope), {"deadline_s": r["deadline_s"]}, o,
                       {"scenario": r["name"], "scope": scope, "result": o}, estats)
         ctx.cov["e2e"] = {"scenarios": [r["name"] for r in res["e2e"]], "verdicts": estats}
+
+    # ---- the dependency side
+    dscripts, dres = res["deps"]
+    dstats, dkinds, dfollowed = {}, {}, 0
+    for sc, r in zip(dscripts, dres):
+        ctx.case(key="deps/" + json.dumps(sc["steps"], sort_keys=True), nontrivial=sum(1 for st in sc["steps"] if st["a"] == "dep") >= 2)
+        pk = dkinds.setdefault(sc["kind"].split("/")[0], {"n": 0, "followed": 0, "in_sync": 0, "violating": 0})
+        pk["n"] += 1
+        if r["followed"]:
+            pk["followed"] += 1
+            dfollowed += 1
+        bad = False
+        sigs = {scope: (classify_stuck(o) if o["stuck"] else None) for scope, o in r["clients"].items()}
+        for scope, o in sorted(r["clients"].items()):
+            what = "dependency script %d (%s), %s stream" % (sc["id"], sc["kind"], scope)
+            art = {"script": sc, "result": r}
+            if o["stuck"]:
+                bad = True
+                if sigs[scope] != SIG_DEADLOCK and SIG_DEADLOCK in sigs.values():
+                    continue
+                judge(ctx, what, r, o, art, dstats)
+            elif r["setDiffers"].get(scope):
+                bad = True
+                sub, deps = set(o["subscribed"] or []), set(r["deps"])
+                dstats[SIG_DEPORDER] = dstats.get(SIG_DEPORDER, 0) + 1
+                ctx.violation(SIG_DEPORDER,
+                              "%s: every dependency message has been delivered and the clients are at rest, but the client's subscribed set "
+                              "differs from the last dependency set (extra %s, missing %s; the stream carries extra %s, missing %s): "
+                              "the Subscribe/Unsubscribe calls of consecutive dependency messages were not applied in order"
+                              % (what, sorted(sub - deps)[:4], sorted(deps - sub)[:4], o["extra"][:4], o["missing"][:4]), art)
+            else:
+                judge(ctx, what, r, o, art, dstats)
+                bad = bad or not o["inSync"]
+        pk["violating" if bad else "in_sync"] += 1
+        if not bad and r["followed"]:
+            ctx.cov["traces_validated_against_impl"] += 1
+    ctx.cov["deps"] = {"scripts": len(dscripts), "followed": dfollowed, "per_kind": dkinds, "verdicts": dstats,
+                       "mandatory_strata": [sc["kind"] for sc in dscripts if sc["kind"].startswith("stratum/")]}
+    if dscripts:
+        ctx.sample({"dependency_script": dscripts[0]["kind"], "messages": dres[0]["messages"], "deps": len(dres[0]["deps"]),
+                    "config_stream_in_sync": dres[0]["clients"]["config"]["inSync"], "set_differs": dres[0]["setDiffers"]})
 
     # ---- silent failures on the production constructor's connection
     judge_keepalive(ctx, res["keepalive"])
